@@ -60,9 +60,13 @@ THEOREMS = [
     _T("fromStates_Tnuc_within_one_step", "for admissible trajectories (monitored): nucleationTemperatures(fromStates=True) = X_T[i,k0-1] and the recorded "
        "T_nuc = that + q/hl*dt with q the ACTUAL heat flow of step k0-1 (equality is false)", "partial"),
     _T("fromStates_Tnuc_counterexample", "REFUTED 'states-derived nucleation temperature equals the recorded one' (K2)", "counterexample"),
-    _T("counter_states", "sigmaCounter(t,thr,fromStates=True) = #{stored vials with sigma(first grid time >= t) > thr}"),
-    _T("counter_states_beyond_end_counterexample", "REFUTED for query times beyond the last grid time: the states path reads "
-       "column 0 (argmax of an all-False array) and reports the initial state (K7)", "counterexample"),
+    _T("counter_states", "sigmaCounter(t,thr,fromStates=True) = #{stored vials with sigma(first grid time >= t) > thr}; beyond the last stored time: in the LAST stored column"),
+    _T("counter_states_beyond_end_counterexample", "refutation of the OLD code (before /repo 9deb6c8, K9): beyond the last stored "
+       "time the old states path read column 0 (argmax of an all-False array); the repaired accessor reads the last column",
+       "refutation-of-old-code"),
+    _T("counter_nuc_stats_beyond_end", "for admissible trajectories (sigma >= 0, ice once formed is kept - MONITORED on every run, "
+       "= C06's conditional run invariant): for t[N-1] < t < N*dt the states path counts the last stored column, the stats "
+       "path #{t_nuc <= t}, and the two agree", "full-under-monitored-hypothesis"),
     _T("counter_nuc_stats", "for admissible trajectories (sigma >= 0, ice once formed is kept - MONITORED on every run, = C06's conditional run invariant): on-grid t: sigmaCounter(t,0) on the stats path = #{t_nuc <= t} = the states count",
        "full-under-monitored-hypothesis"),
     _T("counter_sol_stats_counterexample", "REFUTED 'sigmaCounter(t) counts the vials solidified at t' on the stats path: it "
@@ -98,9 +102,9 @@ ASSUMPTIONS = [
     "that leave it are counted under the distribution tag 'outside_hypothesis=adm…' (never a violation); generators keep "
     "dt*Hsum <= 0.85*m*c_p_min except for a small stream tagged 'unstable-stream'",
     "query times: every real t is evaluated. t < 0 -> both paths must give the initial state (0 nucleated). t beyond the "
-    "last grid time: the stats path must count every recorded vial; the states path must report the LAST stored column - "
-    "the code reads column 0 (argmax of an all-False array), reported as known finding K7 (own key "
-    "counter_states|sigmaCounter|beyond-last-grid-time, theorem counter_states_beyond_end_counterexample)",
+    "last stored time: the states path must report the LAST stored column (repaired in /repo 9deb6c8, finding K9 - the old "
+    "code read column 0; theorem counter_states_beyond_end_counterexample refutes the old code) and, for t < N*dt, agree "
+    "with the stats path",
     "between grid times the states path of sigmaCounter reads the NEXT grid column (theorem counter_states says exactly "
     "that); agreement of the stats path and the states path is claimed for on-grid times only",
     "stored states are finite (no vial reaches sigma = 1 exactly)",
@@ -201,6 +205,7 @@ def _query_times(case, t, S):
     # keep the query times inside the process except for one explicit probe beyond the end
     tend = float(t[-1])
     out = [q for q in out if q <= tend]
+    out.append(tend + 0.5 * dt)
     out.append(tend + 2.5 * dt)
     return out
 
@@ -776,7 +781,7 @@ def predicates(case, impl):
                 truth = sum(1 for row in Xs if row[-1] > thr)
                 if c != truth:
                     col0 = sum(1 for row in Xs if row[0] > thr)
-                    F("counter_states", "sigmaCounter", "beyond-last-grid-time" if c == col0 else "states",
+                    F("counter_states", "sigmaCounter", "states-beyond-end",
                       f"t={q} > last grid time {tend}, thr={thr}: counter {c} (column 0 holds {col0}) but {truth} stored "
                       f"trajectories are above the threshold in the last column")
                 continue
@@ -797,6 +802,9 @@ def predicates(case, impl):
                 want = sum(1 for x in (tnuc if thr == 0 else []) if x is not None and x <= q)
                 if thr == 0 and c != want:
                     F("counter_nuc_stats", "sigmaCounter", "beyond-end", f"t={q}: {c} vs #{{t_nuc <= t}} = {want}")
+                if thr == 0 and full and adm_all and q < N * dt * (1 - 1e-9) and c != cs[impl["times"].index(q)]:
+                    F("counter_nuc_stats", "sigmaCounter", "stats-vs-states-beyond-end",
+                      f"t={q} in (t_end, N*dt): stats path {c} vs states path {cs[impl['times'].index(q)]}")
                 continue
             on_grid = any(x == q for x in t)
             tolq = 1e-9 * max(1.0, abs(q))
@@ -854,10 +862,6 @@ def classify(case, impl):
         if not all(_adm_row(row) for row in impl["Xs"]):
             tags.append("outside_hypothesis=adm(sigma<0 or ice lost)")
         tags.append("unstable-stream" if case.get("unstable") else "stable-stream")
-        for d in impl["perThr"]:
-            if not isinstance(d["count_states"], dict) and d["count_states"] and d["count_states"][-1] == 0 and nn > 0:
-                tags.append("beyond-end-query-reads-column-0(K7)")
-                break
     return tags
 
 
